@@ -77,6 +77,10 @@ func genC17(r *simrt.Rand, tier string, idx int) *hx.Program {
 	// first in one byte (0), only in its second half (1), only in its first half (2) or everywhere (3)
 	p.P["keylen"] = []int64{16, 32}[r.Intn(2)]
 	p.P["keyrel"] = int64(r.Intn(4))
+	p.P["keyalpha"] = int64(r.Intn(4) / 3) // a quarter of the programs: keys made of hexadecimal digits
+	if p.P["keyalpha"] == 1 && r.Pct(60) {
+		p.P["keyrel"] = 0 // ... most of them with a neighbour that differs in one character (the case of a letter)
+	}
 	// 0: one stream, one partition; 1: one stream, two partitions; 2: two encrypted streams
 	p.P["layout"] = []int64{0, 0, 0, 1, 2}[r.Intn(5)]
 	if r.Pct(12) {
@@ -284,6 +288,21 @@ func c17Keys(prog *hx.Program) [2][]byte {
 	}
 	anyByte := func() byte { return byte(1 + r.Intn(255)) }
 	other := func(b byte) byte { return byte(1 + (int(b)-1+1+r.Intn(254))%255) } // in 1..255 and != b
+	if prog.Param("keyalpha", 0) == 1 {
+		// keys as operators type them: hexadecimal digits in either case (the output of a key generator pasted
+		// into the environment); a neighbouring key differs in the case of one letter where it can
+		const hexd = "0123456789abcdefABCDEF"
+		anyByte = func() byte { return hexd[r.Intn(len(hexd))] }
+		other = func(b byte) byte {
+			switch {
+			case b >= 'a' && b <= 'f':
+				return b - 'a' + 'A'
+			case b >= 'A' && b <= 'F':
+				return b - 'A' + 'a'
+			}
+			return '0' + (b-'0'+1+byte(r.Intn(9)))%10
+		}
+	}
 	k0 := make([]byte, klen)
 	for i := range k0 {
 		k0[i] = anyByte()
@@ -307,6 +326,9 @@ func c17Keys(prog *hx.Program) [2][]byte {
 	}
 	for i := lo; i < hi; i++ {
 		k1[i] = anyByte()
+		if prog.Param("keyalpha", 0) == 1 && hi-lo == 1 {
+			k1[i] = other(k0[i])
+		}
 	}
 	if bytes.Equal(k0, k1) {
 		k1[lo] = other(k0[lo])
